@@ -215,6 +215,94 @@ fn scenario(pr: &Params) -> Verdict {
     e3::finish(v)
 }
 
+/// REP protocol state: a request has been received and its reply is owed; recv futures are then
+/// polled / dropped per the action string; the reply must still be accepted and reach the requester,
+/// and a request arriving meanwhile must still be delivered afterwards.
+fn rep_state_scenario(actions: &str, second_request_early: bool) -> Verdict {
+    world::reset(world::WorldCfg { nested_env: false, yields: false, select: false, policy: 0 });
+    let c = e3::raw_conn("req");
+    c.send(&rc::handshake("REQ", Some(b"R")));
+    c.send(&rc::encode_message(&[vec![], b"q1".to_vec()]));
+    c.gate("second");
+    c.send(&rc::encode_message(&[vec![], b"q2".to_vec()]));
+    let viol = std::rc::Rc::new(std::cell::RefCell::new(Vec::<(String, String)>::new()));
+    let viol2 = viol.clone();
+    let acts: Vec<char> = actions.chars().collect();
+    world::spawn_app("app", async move {
+        let mut sock = AnySocket::new(Ty::Rep, None);
+        let _ = e3::attach_raw(sock.backend(), c).await;
+        let r = world::until_idle(sock.recv()).await;
+        let rs = r.as_ref().map(e3::show_result).unwrap_or_else(|| "pending".into());
+        if rs != format!("Ok{}", rc::show_frames(&[b"q1".to_vec()])) {
+            viol2.borrow_mut().push(("rep/first-request".into(), format!("first recv returned {}", rs)));
+            return;
+        }
+        if second_request_early {
+            world::set_cond("second");
+            world::idle().await;
+        }
+        // abandoned recv calls while the reply to q1 is owed
+        let mut i = 0;
+        let mut early: Option<String> = None;
+        while i < acts.len() {
+            if acts[i] == 'P' {
+                let mut fut = Box::pin(sock.recv());
+                while i < acts.len() && acts[i] == 'P' {
+                    if let Some(r) = PollOnce(fut.as_mut()).await {
+                        early = Some(e3::show_result(&r));
+                        i = acts.len();
+                        break;
+                    }
+                    i += 1;
+                }
+                drop(fut);
+            }
+            i += 1;
+        }
+        if let Some(e) = early {
+            // the second request was delivered by one of the polls: then the socket owes THAT reply
+            if e != format!("Ok{}", rc::show_frames(&[b"q2".to_vec()])) {
+                viol2.borrow_mut().push(("rep/second-request".into(), format!("a polled recv returned {}", e)));
+            }
+            return;
+        }
+        let before = c.tap_messages().len();
+        let s = sock.send(msg(&[b"a1".to_vec()])).await;
+        let wire = c.tap_messages();
+        match &s {
+            Ok(()) => {
+                if wire.len() != before + 1 || wire.last() != Some(&vec![vec![], b"a1".to_vec()]) {
+                    viol2.borrow_mut().push(("rep/reply-after-abandoned-recv-misrouted".into(), format!("reply accepted but the requester's wire carries {:?}", wire.iter().map(|m| rc::show_frames(m)).collect::<Vec<_>>())));
+                }
+            }
+            Err(e) => viol2.borrow_mut().push((
+                "rep/abandoned-recv-forgot-owed-reply".into(),
+                format!("after recv returned request q1, recv futures were polled and dropped ({}); the reply to q1 was then refused: {}", if acts.is_empty() { "none".to_string() } else { acts.iter().collect::<String>() }, e3::err_class(e)),
+            )),
+        }
+        world::set_cond("second");
+        let r = world::until_idle(sock.recv()).await;
+        let rs = r.as_ref().map(e3::show_result).unwrap_or_else(|| "pending".into());
+        if rs != format!("Ok{}", rc::show_frames(&[b"q2".to_vec()])) {
+            viol2.borrow_mut().push(("rep/request-lost-after-abandoned-recv".into(), format!("the second request came out as {}", rs)));
+        }
+        world::wait_cond("never").await;
+        drop(sock);
+    });
+    let end = world::run(e3::HORIZON);
+    let mut v = Verdict::default();
+    v.truncated = end != world::RunEnd::Quiescent;
+    let what = format!("REP socket owing a reply, recv actions {:?}{}", actions, if second_request_early { ", second request already on the wire" } else { "" });
+    for p in world::panics() {
+        v.violate("panic", format!("{}: {}", what, p));
+    }
+    for (c, m) in viol.borrow().iter() {
+        v.violate(c.clone(), format!("{}: {}", what, m));
+    }
+    v.outcome_hash = rc::fnv(e3::canon_log().join("|").as_bytes()) ^ rc::fnv(actions.as_bytes());
+    e3::finish(v)
+}
+
 fn pj(p: &Params) -> Value {
     json!({"type": p.ty.name(), "cut": p.cut, "actions": p.actions})
 }
@@ -264,11 +352,15 @@ pub fn run(tier: Tier, replay: Option<String>) -> i32 {
     if let Some(path) = replay {
         let v: Value = serde_json::from_str(&std::fs::read_to_string(&path).expect("read")).expect("json");
         return crate::replay::replay_e3(&v, |p| {
+            if p["scenario"] == "rep-state" {
+                let (a, e) = (p["actions"].as_str()?.to_string(), p["early"].as_bool()?);
+                return Some(std::sync::Arc::new(move || rep_state_scenario(&a, e)) as zvcore::explore::Scenario);
+            }
             let pr = pf(p)?;
             Some(std::sync::Arc::new(move || scenario(&pr)) as zvcore::explore::Scenario)
         });
     }
-    let (max_len, max_calls) = tier.pick((6, 2), (7, 3));
+    let (max_len, max_calls) = tier.pick((7, 3), (8, 3));
     let two = action_strings(max_len, 2, max_calls);
     let one = action_strings(max_len, 1, max_calls);
     let mut jobs = Vec::new();
@@ -287,6 +379,23 @@ pub fn run(tier: Tier, replay: Option<String>) -> i32 {
             }
         }
     }
+    // REP protocol state after abandoned recv calls
+    let mut rep_strings: Vec<String> = vec![String::new()];
+    for len in 1..=tier.pick(5usize, 6usize) {
+        for bits in 0..(1u32 << len) {
+            let a: String = (0..len).map(|i| if bits >> i & 1 == 1 { 'P' } else { 'X' }).collect();
+            if !a.starts_with('X') && !a.contains("XX") {
+                rep_strings.push(a);
+            }
+        }
+    }
+    for a in &rep_strings {
+        for early in [false, true] {
+            let a2 = a.clone();
+            n += 1;
+            jobs.push(e3::job(format!("C14/REP-state/{}/{}", a, early), json!({"scenario":"rep-state","actions":a,"early":early}), 0, 4, move || rep_state_scenario(&a2, early)));
+        }
+    }
     e3::run_jobs_into(&mut ck, jobs, false);
     let ex = ck.coverage.get("e3_executions").and_then(|v| v.as_u64()).unwrap_or(0);
     ck.cov("states", n);
@@ -294,7 +403,7 @@ pub fn run(tier: Tier, replay: Option<String>) -> i32 {
     ck.cov("traces_validated_against_impl", ex);
     ck.cov("action_strings", (two.len() + one.len()) as u64);
     ck.cov("exhaustive", true);
-    ck.cov("explanation", format!("for PULL, SUB, DEALER, ROUTER, REP, XPUB and REQ: the peer's two messages (one multipart) are cut at EVERY byte offset into two chunks; the application runs EVERY well-formed action string of length <= {} over {{P: poll the recv future once (creating it if none is open), D: the next chunk arrives, X: drop the pending future}} with at most {} recv calls ({} strings) — i.e. every cancellation point relative to every arrival position — then lets everything arrive and calls recv to completion: the results must be exactly the peer's messages, in order, once. REQ: after send(q0), abandoned recv calls must leave the socket owing that recv: a new send must fail with ReturnToSender (message intact) and recv must return reply 0; with the reply arriving before / during / after the abandoned call. The fair queue's part (a stream is checked out and returned within one synchronous poll) is additionally covered by the always-enabled spurious Poll in E2 (C05/C06).", max_len, max_calls, two.len() + one.len()));
+    ck.cov("explanation", format!("for PULL, SUB, DEALER, ROUTER, REP, XPUB and REQ: the peer's two messages (one multipart) are cut at EVERY byte offset into two chunks; the application runs EVERY well-formed action string of length <= {} over {{P: poll the recv future once (creating it if none is open), D: the next chunk arrives, X: drop the pending future}} with at most {} recv calls ({} strings) — i.e. every cancellation point relative to every arrival position — then lets everything arrive and calls recv to completion: the results must be exactly the peer's messages, in order, once. REQ: after send(q0), abandoned recv calls must leave the socket owing that recv: a new send must fail with ReturnToSender (message intact) and recv must return reply 0; with the reply arriving before / during / after the abandoned call. REP: with a request received and its reply owed, every string of polled-and-dropped recv calls (with or without the next request already on the wire) must leave the reply acceptable and routed to the requester, and the next request deliverable. The fair queue's part (a stream is checked out and returned within one synchronous poll) is additionally covered by the always-enabled spurious Poll in E2 (C05/C06).", max_len, max_calls, two.len() + one.len()));
     ck.assume("the cancellation point of a future is between two polls; each poll is atomic");
     ck.conclude()
 }
